@@ -1,12 +1,60 @@
-"""C19 — chord and melody inference return a maximum-likelihood path of their model (DESIGN 6.19)."""
-from harness.common import lean_list, lean_str
+"""C19 — chord and melody inference return a maximum-likelihood path of their model (DESIGN 6.19).
+
+Streams (all inputs derive from VERIF_SEED):
+  vit-mel-int      real `_melody_viterbi` on integer-valued tables (ties, -inf) vs the model over `Ext`
+                   (exact arithmetic) AND over native Float                         — path + optimum, exact
+  vit-kc-int       real `_key_chord_viterbi` with `_CHORDS` cut to C = 1..6 chords (12*C states), integer
+                   tables, vs the model over native Float (the code adds the non-integer -log 12)
+  vit-kc-real      the same at the real dimension 1164 x 1164, transition table regenerated on both
+                   sides from a seed (splitmix64)
+  vit-kc-float / vit-mel-float   the float tables captured from the end-to-end runs
+  chords-e2e       infer_chords_for_sequence on generated sequences: annotations / key signatures vs the
+                   model's writer applied to the implementation's path
+  melody-e2e       infer_melody_for_sequence: added notes / instrument vs the model's writer
+  note-frames      sequence_note_frames vs the model
+  chord-tables     in-key / out-of-key counts and chord pitch vectors vs the functions the rotation
+                   theorem is stated about
+Oracle (independent of the model): a plain DP in the same operation order over the implementation's
+own tables must EQUAL the score of the implementation's path; brute force over all paths on tiny
+instances; well-formedness of what was added; chord likelihood unchanged under transposition.
+"""
+import itertools
+import math
+import struct
+import warnings
+from concurrent.futures import ThreadPoolExecutor
+
+from harness.common import lean_list, lean_str, rat, unrat, corpus_cases
 
 PID = 'C19'
-MODULES = ['NoteSeqVerif.Props.C19']
+MODULES = ['NoteSeqVerif.Props.C19', 'NoteSeqVerif.Props.C19_float']
 EXE = 'drv_c19'
-THEOREMS = []
+THEOREMS = [
+    'NSV.C19.argmax_first_max', 'NSV.C19.viterbi_run_eq', 'NSV.C19.viterbi_exec_eq',
+    'NSV.C19.viterbi_optimal', 'NSV.C19.viterbi_error_iff',
+    'NSV.C19.keychord_viterbi_optimal', 'NSV.C19.melody_viterbi_optimal',
+    'NSV.C19.keychord_score_unfold', 'NSV.C19.melody_score_unfold',
+    'NSV.C19.viterbi_finite', 'NSV.C19.viterbi_path_finite', 'NSV.C19.melody_onset_observed',
+    'NSV.C19.viterbi_equivariant', 'NSV.C19.keychord_transpose_invariant',
+    'NSV.C19.mono_ext', 'NSV.C19.ext_absorbing',
+    'NSV.C19.chord_tables_rotation', 'NSV.C19.chord_tables_shape',
+    'NSV.C19.chord_annotations_wf', 'NSV.C19.chord_times_nondecreasing', 'NSV.C19.perChord_times_monotone',
+    'NSV.C19.melody_notes_wf', 'NSV.C19.melody_writer_ok', 'NSV.C19.melody_instrument_fresh',
+    'NSV.C19.noteFrames_onset',
+    ('NoteSeqVerif.Props.C19_float', 'NSV.C19.mono_extq'), ('NoteSeqVerif.Props.C19_float', 'NSV.C19.mono_extq_rne53'),
+    ('NoteSeqVerif.Props.C19_float', 'NSV.C19.extq_absorbing'),
+    ('NoteSeqVerif.Props.C19_float', 'NSV.C19.keychord_viterbi_optimal_float'),
+    ('NoteSeqVerif.Props.C19_float', 'NSV.C19.melody_viterbi_optimal_float'),
+    ('NoteSeqVerif.Props.C19_float', 'NSV.C19.viterbi_path_finite_float'),
+    ('NoteSeqVerif.Props.C19_float', 'NSV.C19.chord_times_nondecreasing_float'),
+]
+
+NINF = float('-inf')
+CHORD_SYMBOL = 1   # NoteSequence.TextAnnotation.CHORD_SYMBOL
+BEAT = 2
 
 
+# ============================================================================= generated tables
 def gen_text():
     """Generated/C19.lean: the tables of chord_inference.py that the writer / rotation theorems use."""
     from note_seq import chord_inference as ci, melody_inference as mi, constants
@@ -49,9 +97,1179 @@ def generate(chk):
     chk.regenerate('NoteSeqVerif/Generated/C19.lean', gen_text())
 
 
+# ============================================================================= wire helpers
+def digest(obj):
+    import hashlib
+    return hashlib.md5(repr(obj).encode()).hexdigest()
+
+
+def hexf(x):
+    return '%016x' % struct.unpack('<Q', struct.pack('<d', float(x)))[0]
+
+
+def unhexf(t):
+    return struct.unpack('<d', struct.pack('<Q', int(t, 16)))[0]
+
+
+def hexarr(a):
+    import numpy as np
+    a = np.ascontiguousarray(a, dtype=np.float64)
+    return ' '.join(['%016x' % v for v in a.view(np.uint64).ravel().tolist()])
+
+
+def ext(x):
+    return '-inf' if x == NINF else str(int(x))
+
+
+def extarr(a):
+    return ' '.join(ext(x) for x in a.ravel().tolist())
+
+
+def hx(s):
+    return 'x' + s.encode('utf-8').hex()
+
+
+def feq(a, b):
+    """bit-for-bit equality of two doubles that are not NaN (−0.0 never arises from these sums of
+    non-positive log-probabilities and integer tables unless both sides produce it)"""
+    return a == b
+
+
+def splitmix_table(seed, n2, lo, hi, pinf):
+    """integer-valued pseudo-random table, identical to `lcgEntry` of Driver/C19.lean"""
+    import numpy as np
+    k = np.arange(n2, dtype=np.uint64)
+    with np.errstate(over='ignore'):
+        z = np.uint64(seed) + k * np.uint64(0x9E3779B97F4A7C15)
+        z = (z ^ (z >> np.uint64(30))) * np.uint64(0xBF58476D1CE4E5B9)
+        z = (z ^ (z >> np.uint64(27))) * np.uint64(0x94D049BB133111EB)
+        z = z ^ (z >> np.uint64(31))
+    inf = ((z >> np.uint64(40)) % np.uint64(100)) < np.uint64(pinf)
+    out = ((z % np.uint64(hi - lo + 1)).astype(np.int64) + lo).astype(np.float64)
+    out[inf] = NINF
+    return out
+
+
+# ============================================================================= the implementation
+class PatchedChords:
+    """run the real `_key_chord_viterbi` with `_CHORDS` cut to its first C entries (the function reads
+    the state space from these two module tables); restored on exit"""
+
+    def __init__(self, ci, C):
+        self.ci, self.C = ci, C
+
+    def __enter__(self):
+        ci = self.ci
+        self.orig = (ci._CHORDS, ci._KEY_CHORDS)
+        if self.C != len(ci._CHORDS):
+            ci._CHORDS = list(ci._CHORDS[:self.C])
+            ci._KEY_CHORDS = list(itertools.product(range(12), ci._CHORDS))
+        return self
+
+    def __exit__(self, *a):
+        self.ci._CHORDS, self.ci._KEY_CHORDS = self.orig
+
+
+def kc_indices(ci, result, C):
+    idx = {c: i for i, c in enumerate(ci._CHORDS)}
+    return [int(k) * C + idx[c] for (k, c) in result]
+
+
+def impl_kc(ci, fl, kc, tr, C):
+    with PatchedChords(ci, C):
+        return kc_indices(ci, ci._key_chord_viterbi(fl, kc, tr), C)
+
+
+def mel_indices(mi, events, pitches):
+    pos = {p: i for i, p in enumerate(pitches)}
+    P = len(pitches)
+    out = []
+    for e in events:
+        if isinstance(e, tuple):
+            p, on = e
+            out.append(pos[p] + 1 if on else pos[p] + 1 + P)
+        else:
+            out.append(0)
+    return out
+
+
+def impl_mel(mi, pitches, fl, tr):
+    return mel_indices(mi, mi._melody_viterbi(pitches, fl, tr), pitches)
+
+
+# ---- scores in the code's operation order (IEEE adds on the implementation's own tables)
+def kc_init(np, fl, kc, C):
+    nl = -np.log(12)
+    return [(nl + kc[i // C, i % C]) + fl[0, i % C] for i in range(12 * C)]
+
+
+def kc_score(np, path, fl, kc, tr, C):
+    s = path[0]
+    v = (-np.log(12) + kc[s // C, s % C]) + fl[0, s % C]
+    for t in range(1, len(path)):
+        v = (v + tr[path[t - 1], path[t]]) + fl[t, path[t] % C]
+    return float(v)
+
+
+def mel_score(path, fl, tr):
+    v = tr[0, path[0]] + fl[0, path[0]]
+    for t in range(1, len(path)):
+        v = (v + tr[path[t - 1], path[t]]) + fl[t, path[t]]
+    return float(v)
+
+
+# ============================================================================= the oracle
+def dp_optimum(np, init, tr, emit_rows):
+    """independent dynamic program: best score of any path, `(best_i (v_i + tr_ij)) + emit_tj`;
+    no arg-max, no back-pointers.  Plain Python for small state spaces, numpy element-wise
+    add / max (the same IEEE operations) for the 1164-state layout."""
+    n = len(init)
+    if n <= 80:
+        v = [float(x) for x in init]
+        trl = [[float(x) for x in row] for row in tr]
+        for em in emit_rows:
+            eml = [float(x) for x in em]
+            nv = []
+            for j in range(n):
+                best = NINF
+                for i in range(n):
+                    x = v[i] + trl[i][j]
+                    if x > best:
+                        best = x
+                nv.append(best + eml[j])
+            v = nv
+        return max(v)
+    v = np.array(init, dtype=np.float64)
+    for em in emit_rows:
+        v = (v[:, None] + tr).max(axis=0) + em
+    return float(v.max())
+
+
+def brute_optimum(n, frames, score_fn):
+    best = NINF
+    for p in itertools.product(range(n), repeat=frames):
+        w = score_fn(list(p))
+        if w > best:
+            best = w
+    return best
+
+
+def oracle_kc(np, path, fl, kc, tr, C):
+    frames = fl.shape[0]
+    n = 12 * C
+    if len(path) != frames or any(not (0 <= s < n) for s in path):
+        return 'returned path is not a state path of the requested length'
+    sc = kc_score(np, path, fl, kc, tr, C)
+    opt = dp_optimum(np, kc_init(np, fl, kc, C), tr, [np.tile(fl[t], 12) for t in range(1, frames)])
+    if not feq(sc, opt):
+        return 'key-chord path scores %r but the dynamic program reaches %r' % (sc, opt)
+    if n ** frames <= 2000:
+        b = brute_optimum(n, frames, lambda p: kc_score(np, p, fl, kc, tr, C))
+        if not feq(sc, b):
+            return 'key-chord path scores %r but some path scores %r (brute force)' % (sc, b)
+    return None
+
+
+def oracle_mel(np, path, fl, tr):
+    frames, n = fl.shape
+    if len(path) != frames or any(not (0 <= s < n) for s in path):
+        return 'returned path is not a state path of the requested length'
+    sc = mel_score(path, fl, tr)
+    init = [tr[0, j] + fl[0, j] for j in range(n)]
+    opt = dp_optimum(np, init, tr, [fl[t] for t in range(1, frames)])
+    if not feq(sc, opt):
+        return 'melody path scores %r but the dynamic program reaches %r' % (sc, opt)
+    if n ** frames <= 7000:
+        b = brute_optimum(n, frames, lambda p: mel_score(p, fl, tr))
+        if not feq(sc, b):
+            return 'melody path scores %r but some path scores %r (brute force)' % (sc, b)
+    return None
+
+
+# ============================================================================= sequences
+def build_seq(d):
+    from note_seq.protobuf import music_pb2
+    s = music_pb2.NoteSequence()
+    for (p, a, b, inst, prog, drum) in d['notes']:
+        n = s.notes.add()
+        n.pitch, n.start_time, n.end_time, n.instrument, n.program, n.is_drum = p, a, b, inst, prog, bool(drum)
+        n.velocity = 80
+    s.total_time = d['total_time']
+    if d.get('qpm') is not None:
+        t = s.tempos.add()
+        t.qpm = d['qpm']
+    if d.get('ts') is not None:
+        t = s.time_signatures.add()
+        t.numerator, t.denominator = d['ts']
+    for (t, txt, ty) in d.get('annotations', []):
+        a = s.text_annotations.add()
+        a.time, a.text, a.annotation_type = t, txt, ty
+    for (t, k) in d.get('key_signatures', []):
+        ks = s.key_signatures.add()
+        ks.time, ks.key = t, k
+    return s
+
+
+def prepare_chord_seq(d):
+    """the sequence handed to infer_chords_for_sequence"""
+    from note_seq import sequences_lib as sl
+    s = build_seq(d)
+    if d.get('spq'):
+        s = sl.quantize_note_sequence(s, d['spq'])
+    elif d.get('abs_sps'):
+        s = sl.quantize_note_sequence_absolute(s, d['abs_sps'])
+    return s
+
+
+PARAM_SETS = [
+    {},
+    {'key_change_prob': 0.01, 'chord_change_prob': 0.3, 'chord_pitch_out_of_key_prob': 0.05, 'chord_note_concentration': 20.0},
+    {'key_change_prob': 0.2, 'chord_change_prob': 0.9, 'chord_pitch_out_of_key_prob': 0.3, 'chord_note_concentration': 3.0},
+    {'key_change_prob': 0.0, 'chord_change_prob': 0.5, 'chord_pitch_out_of_key_prob': 0.01, 'chord_note_concentration': 100.0},
+    {'key_change_prob': 0.001, 'chord_change_prob': 1.0, 'chord_pitch_out_of_key_prob': 0.0, 'chord_note_concentration': 0.0},
+    {'key_change_prob': 0.5, 'chord_change_prob': 0.1, 'chord_pitch_out_of_key_prob': 0.5, 'chord_note_concentration': 250.0},
+]
+SUPPORTED = [(2, 2), (2, 4), (3, 4), (4, 4), (6, 8)]
+KINDS = [[0, 4, 7], [0, 3, 7], [0, 4, 8], [0, 3, 6], [0, 4, 7, 10], [0, 4, 7, 11], [0, 3, 7, 10], [0, 3, 6, 10]]
+
+
+def gen_chord_case(rng, nparams):
+    d = {'kind': 'chords', 'notes': [], 'annotations': [], 'key_signatures': []}
+    hist = []
+    mode = rng.choice(['meter', 'meter', 'meter', 'beats', 'beats-abs'])
+    d['qpm'] = rng.choice([120.0, 120.0, 60.0, 90.0, 100.0, 137.5, rng.uniform(40, 200)])
+    F = rng.choice([1, 1, 2, 2, 3, 4, 5, 8, 13, 16, 32, 64, rng.randint(1, 64), rng.randint(1, 24)])
+    if mode == 'meter':
+        ts = rng.choice(SUPPORTED + [(4, 4), (3, 4), (5, 4), (7, 8), (12, 8)])
+        spq = rng.choice([1, 2, 4, 4, 4, 8, 12, 24])
+        steps_per_bar = spq * 4 * ts[0] // ts[1] if (spq * 4 * ts[0]) % ts[1] == 0 else None
+        if steps_per_bar is None:
+            ts, steps_per_bar = (4, 4), spq * 4
+        divs = [c for c in range(1, steps_per_bar + 1) if steps_per_bar % c == 0]
+        from note_seq import chord_inference as ci
+        default = ci._DEFAULT_TIME_SIGNATURE_CHORDS_PER_BAR.get(ts)
+        if default is not None and steps_per_bar % default == 0 and rng.random() < 0.7:
+            cpb, eff = None, default
+        else:
+            cpb = eff = rng.choice(divs[:4])
+        d.update(ts=list(ts), spq=spq, chords_per_bar=cpb)
+        steps_per_chord = steps_per_bar // eff
+        spc = steps_per_chord / (spq * d['qpm'] / 60.0)
+        bounds = [f * spc for f in range(F + 1)]
+        k = rng.random()
+        d['total_time'] = (bounds[F] if k < 0.5 else bounds[F] - rng.uniform(0, 0.9) * spc if k < 0.9 or F == 1
+                           else math.nextafter(bounds[F - 1], math.inf))   # just past the previous boundary
+        hist += ['meter:%d/%d' % tuple(ts), 'cpb:' + ('default' if cpb is None else 'explicit')]
+    else:
+        d.update(ts=[4, 4], chords_per_bar=None)
+        if mode == 'beats-abs':
+            d['abs_sps'] = rng.choice([10, 50, 100])
+        t, bounds = 0.0, [0.0]
+        base = 60.0 / d['qpm']
+        for _ in range(F):
+            t += base * rng.choice([1.0, 1.0, 1.0, rng.uniform(0.7, 1.4)])
+            bounds.append(t)
+        d['total_time'] = bounds[F]
+        beats = list(bounds[1:F])
+        extra = []
+        for b in beats:
+            if rng.random() < 0.1:
+                extra.append(b)                 # duplicate beat
+        if rng.random() < 0.5:
+            extra += [0.0, d['total_time']]     # not interior: ignored
+        if rng.random() < 0.2:
+            extra.append(d['total_time'] + 1.0)
+        beats += extra
+        if not beats:
+            beats.append(rng.choice([0.0, d['total_time']]))   # a beat annotation must exist; none is interior
+        rng.shuffle(beats)
+        d['annotations'] += [[b, '', BEAT] for b in beats]
+        if rng.random() < 0.3:
+            d['annotations'].append([rng.choice(bounds), 'lyric', 0])
+        hist += ['mode:' + mode]
+    # notes: a progression with persistence, chord tones + occasional strangers
+    key = rng.randrange(12)
+    scale = [(key + o) % 12 for o in [0, 2, 4, 5, 7, 9, 11]]
+    cur = None
+    for f in range(F):
+        a, b = bounds[f], min(bounds[f + 1], d['total_time'])
+        if b <= a:
+            continue
+        if cur is None or rng.random() < 0.45:
+            cur = (rng.choice(scale), rng.choice(KINDS))
+        if rng.random() < 0.03:
+            key = rng.randrange(12)
+            scale = [(key + o) % 12 for o in [0, 2, 4, 5, 7, 9, 11]]
+        style = rng.random()
+        nn = 0 if style < 0.12 else rng.choice([1, 2, 3, 3, 4, 5])
+        for _ in range(nn):
+            pc = (cur[0] + rng.choice(cur[1])) % 12 if rng.random() < 0.85 else rng.randrange(12)
+            pitch = 12 * rng.choice([3, 4, 4, 5, 6]) + pc
+            k = rng.random()
+            st = a if k < 0.6 else a + rng.random() * (b - a)
+            k = rng.random()
+            if k < 0.5:
+                en = b
+            elif k < 0.75:
+                en = st + rng.random() * (b - st)
+            elif k < 0.93:
+                en = min(bounds[min(f + rng.choice([2, 3]), F)], d['total_time'])   # crosses frame boundaries
+            else:
+                en = st                                                             # zero length
+            if en < st:
+                en = st
+            drum = rng.random() < 0.04
+            prog = rng.choice([0, 0, 0, 24, 40, 118 if rng.random() < 0.3 else 0])
+            d['notes'].append([pitch, st, en, rng.randrange(3), prog, drum])
+    if not d['notes'] or rng.random() < 0.05:
+        d['notes'].append([60 + key, 0.0, d['total_time'], 0, 0, False])
+    if rng.random() < 0.3:
+        rng.shuffle(d['notes'])
+    if rng.random() < 0.3:
+        d['key_signatures'].append([0.0, rng.randrange(12)])
+    d['add_key_signatures'] = rng.random() < 0.5
+    d['params'] = rng.randrange(nparams)
+    hist += ['frames:%s' % ('1' if F == 1 else '2-8' if F <= 8 else '9-32' if F <= 32 else '33-64'),
+             'params:%d' % d['params'], 'keys:%s' % d['add_key_signatures']]
+    return d, hist
+
+
+def gen_melody_case(rng):
+    d = {'kind': 'melody', 'notes': []}
+    hist = []
+    pool = sorted({0.0} | {rng.randrange(1, 64) / 8.0 for _ in range(rng.choice([2, 4, 8, 16]))}
+                  | {round(rng.uniform(0, 8), 3) for _ in range(rng.choice([0, 2, 5]))})
+    nn = rng.choice([0, 1, 2, 3, 5, 8, 12, 20, 40, 70, 100])
+    pitches = [rng.randrange(36, 96) for _ in range(rng.choice([1, 2, 3, 5, 8, 16]))]
+    for _ in range(nn):
+        a, b = rng.choice(pool), rng.choice(pool)
+        if a > b:
+            a, b = b, a
+        if a == b:
+            if rng.random() < 0.9:
+                b = a + rng.choice([0.125, 0.25, 0.5, 1.0])
+            else:
+                hist.append('zero-length-note')
+        p = rng.choice(pitches)
+        drum = rng.random() < 0.05
+        prog = rng.choice([0, 0, 0, 40, 120 if rng.random() < 0.2 else 0])
+        d['notes'].append([p, a, b, rng.choice([0, 0, 1, 2, 8, 8]), prog, drum])
+    ends = [n[2] for n in d['notes']]
+    mx = max(ends + [0.0])
+    # a zero-length note sitting exactly on total_time is excluded (reported separately: F-C19-1 candidate)
+    d['total_time'] = mx if rng.random() < 0.6 else mx + rng.choice([0.5, 1.0, 0.001])
+    d['notes'] = [n for n in d['notes'] if not (n[1] == n[2] == d['total_time'])]
+    k = rng.random()
+    if k < 0.5:
+        d['params'] = {}
+    elif k < 0.8:
+        d['params'] = {'melody_interval_scale': rng.choice([0.5, 2.0, 7.0]), 'rest_prob': rng.choice([0.01, 0.1, 0.5, 0.9]),
+                       'instantaneous_non_max_pitch_prob': rng.choice([1e-15, 1e-3, 0.3]),
+                       'instantaneous_non_empty_rest_prob': rng.choice([0.0, 1e-6, 0.2]),
+                       'instantaneous_missing_pitch_prob': rng.choice([1e-15, 1e-4, 0.4])}
+    else:
+        d['params'] = {'rest_prob': rng.choice([0.1, 0.999]), 'instantaneous_non_max_pitch_prob': rng.choice([0.0, 0.5]),
+                       'instantaneous_non_empty_rest_prob': rng.choice([0.0, 0.5]),
+                       'instantaneous_missing_pitch_prob': rng.choice([0.0, 0.5])}
+    hist += ['notes:%s' % ('0' if nn == 0 else '1-5' if nn <= 5 else '6-20' if nn <= 20 else '21-100'),
+             'params:%s' % ('default' if not d['params'] else 'custom')]
+    return d, hist
+
+
+# ============================================================================= capture
+class Capture:
+    """record what the real Viterbi helpers are called with and return, memoise the (pure, slow)
+    transition-distribution builder per parameter set.  Nothing is replaced: the real functions run."""
+
+    def __init__(self, cache):
+        self.cache = cache
+        self.kc = []      # (fl, kc, tr, result)
+        self.mel = []     # (pitches, fl, tr, result)
+        self.frames_arg = []
+
+    def __enter__(self):
+        from note_seq import chord_inference as ci, melody_inference as mi
+        self.ci, self.mi = ci, mi
+        self.orig = (ci._key_chord_viterbi, ci._key_chord_transition_distribution, ci.sequence_note_pitch_vectors,
+                     mi._melody_viterbi)
+        o_kv, o_td, o_pv, o_mv = self.orig
+
+        def kv(fl, kc, tr):
+            r = o_kv(fl, kc, tr)
+            self.kc.append((fl, kc, tr, r))
+            return r
+
+        def td(dist, key_change_prob, chord_change_prob):
+            k = (dist.tobytes(), key_change_prob, chord_change_prob)
+            if k not in self.cache:
+                self.cache[k] = o_td(dist, key_change_prob=key_change_prob, chord_change_prob=chord_change_prob)
+            return self.cache[k].copy()
+
+        def pv(sequence, seconds_per_frame):
+            self.frames_arg.append(seconds_per_frame)
+            return o_pv(sequence, seconds_per_frame)
+
+        def mv(pitches, fl, tr):
+            r = o_mv(pitches, fl, tr)
+            self.mel.append((list(pitches), fl, tr, r))
+            return r
+
+        ci._key_chord_viterbi, ci._key_chord_transition_distribution, ci.sequence_note_pitch_vectors = kv, td, pv
+        mi._melody_viterbi = mv
+        return self
+
+    def __exit__(self, *a):
+        ci, mi = self.ci, self.mi
+        (ci._key_chord_viterbi, ci._key_chord_transition_distribution, ci.sequence_note_pitch_vectors,
+         mi._melody_viterbi) = self.orig
+
+
+def run_chords(d, cache):
+    """infer_chords_for_sequence on the case; returns dict(seq=, err=, cap=)"""
+    from note_seq import chord_inference as ci
+    s = prepare_chord_seq(d)
+    kw = dict(PARAM_SETS[d['params']])
+    with Capture(cache) as cap, warnings.catch_warnings():
+        warnings.simplefilter('ignore')
+        try:
+            ci.infer_chords_for_sequence(s, chords_per_bar=d.get('chords_per_bar'),
+                                         add_key_signatures=d['add_key_signatures'], **kw)
+            err = None
+        except Exception as e:  # pylint: disable=broad-except
+            err = e
+    return {'seq': s, 'err': err, 'cap': cap}
+
+
+def figure_table(ci):
+    from note_seq import constants
+    return [constants.NO_CHORD if c == constants.NO_CHORD else '%s%s' % (ci._PITCH_CLASS_NAMES[c[0]], c[1])
+            for c in ci._CHORDS]
+
+
+def chord_timing(d, s, cap):
+    """frame start times / steps as the property reads them: per-chord grid or the interior beats"""
+    from note_seq import sequences_lib as sl
+    arg = cap.frames_arg[-1]
+    if d.get('spq'):
+        spb = sl.steps_per_bar_in_quantized_sequence(s)
+        from note_seq import chord_inference as ci
+        cpb = d.get('chords_per_bar') or ci._DEFAULT_TIME_SIGNATURE_CHORDS_PER_BAR[tuple(d['ts'])]
+        return ('pc', float(arg), int(spb / cpb))
+    beats = sorted([a for a in s.text_annotations if a.annotation_type == BEAT and 0.0 < a.time < s.total_time],
+                   key=lambda a: a.time)
+    uniq = [b for i, b in enumerate(beats) if i == 0 or b.time > beats[i - 1].time]
+    steps = [b.quantized_step for b in uniq] if d.get('abs_sps') else None
+    return ('bt', [b.time for b in uniq], steps)
+
+
+def oracle_chords(np, d, res):
+    """the property statement on the result of infer_chords_for_sequence (independent of the model)"""
+    from note_seq import chord_inference as ci
+    if res['err'] is not None:
+        return 'infer_chords_for_sequence raised %s: %s on a valid sequence' % (type(res['err']).__name__, res['err'])
+    s, cap = res['seq'], res['cap']
+    if len(cap.kc) != 1:
+        return 'the Viterbi helper was not called exactly once'
+    fl, kc, tr, result = cap.kc[0]
+    C = len(ci._CHORDS)
+    path = kc_indices(ci, result, C)
+    frames = fl.shape[0]
+    if not (1 <= frames <= 64):
+        return 'generator produced %d frames (outside 1..64)' % frames
+    if np.isnan(fl).any() or np.isnan(kc).any() or np.isnan(tr).any():
+        return None     # NaN tables (0 * inf in a parameter corner) are outside the property's quantifier
+    r = oracle_kc(np, path, fl, kc, tr, C)
+    if r:
+        return r
+    tm = chord_timing(d, s, cap)
+    if tm[0] == 'pc':
+        starts = [f * tm[1] for f in range(frames)]
+        steps = [f * tm[2] for f in range(frames)]
+    else:
+        starts = [0.0] + list(tm[1])
+        steps = ([0] + list(tm[2])) if tm[2] is not None else None
+    if len(starts) != frames:
+        return 'number of chord frames %d does not match the frame boundaries %d' % (frames, len(starts))
+    anns = [a for a in s.text_annotations if a.annotation_type == CHORD_SYMBOL]
+    times = [a.time for a in anns]
+    if any(t not in starts for t in times):
+        return 'a chord annotation is not on a chord frame boundary'
+    if any(a >= b for a, b in zip(times, times[1:])):
+        return 'chord annotation times are not strictly increasing (more than one per frame boundary or out of order)'
+    if any(a.text == b.text for a, b in zip(anns, anns[1:])):
+        return 'two consecutive chord annotations carry the same symbol'
+    if steps is not None and any(a.quantized_step != steps[starts.index(a.time)] for a in anns):
+        return 'quantized_step of a chord annotation is not the step of its frame boundary'
+    # the annotated chord sequence (each symbol holds until the next) is the sequence Viterbi chose
+    figs = figure_table(ci)
+    want = [figs[i % C] for i in path]
+    got, cur, k = [], None, 0
+    for f in range(frames):
+        if k < len(anns) and anns[k].time == starts[f]:
+            cur = anns[k].text
+            k += 1
+        got.append(cur)
+    if got != want:
+        return 'the annotated chord sequence is not the maximum-likelihood chord sequence'
+    if d['add_key_signatures']:
+        ks = list(s.key_signatures)
+        kt = [x.time for x in ks]
+        if any(t not in starts for t in kt) or any(a >= b for a, b in zip(kt, kt[1:])):
+            return 'key signatures are not on distinct increasing frame boundaries'
+        if any(a.key == b.key for a, b in zip(ks, ks[1:])):
+            return 'two consecutive key signatures carry the same key'
+        got, cur, k = [], None, 0
+        for f in range(frames):
+            if k < len(ks) and ks[k].time == starts[f]:
+                cur = ks[k].key
+                k += 1
+            got.append(cur)
+        if got != [i // C for i in path]:
+            return 'the key signatures are not the maximum-likelihood key sequence'
+    return None
+
+
+def transposed(d, k):
+    e = dict(d)
+    e['notes'] = [[n[0] + k] + list(n[1:]) for n in d['notes']]
+    return e
+
+
+def oracle_transpose(np, d, res, cache, k):
+    """chord likelihood attained is unchanged when every note is moved by k semitones.  The chord
+    tables are exactly rotation invariant only in exact arithmetic (row sums and norms are taken in a
+    rotated order), so the comparison allows a relative 1e-9 (observed differences: a few ulps)."""
+    from note_seq import chord_inference as ci
+    C = len(ci._CHORDS)
+    res2 = run_chords(transposed(d, k), cache)
+    if res2['err'] is not None:
+        return 'transposed by %d: raised %s' % (k, type(res2['err']).__name__), None
+    fl, kc, tr, r1 = res['cap'].kc[0]
+    fl2, kc2, tr2, r2 = res2['cap'].kc[0]
+    if np.isnan(fl).any() or np.isnan(tr).any() or np.isnan(kc).any():
+        return None, None
+    a = kc_score(np, kc_indices(ci, r1, C), fl, kc, tr, C)
+    b = kc_score(np, kc_indices(ci, r2, C), fl2, kc2, tr2, C)
+    if a == b:
+        return None, 0.0
+    if a in (NINF,) or b in (NINF,):
+        return 'transposed by %d: likelihood %r became %r' % (k, a, b), None
+    rel = abs(a - b) / max(1.0, abs(a))
+    if rel > 1e-9:
+        return 'transposed by %d: likelihood %r became %r' % (k, a, b), rel
+    return None, rel
+
+
+def run_melody(d):
+    from note_seq import melody_inference as mi
+    s = build_seq(d)
+    n0 = len(s.notes)
+    with Capture({}) as cap, warnings.catch_warnings(), __import__('numpy').errstate(divide='ignore', invalid='ignore'):
+        warnings.simplefilter('ignore')
+        try:
+            inst = mi.infer_melody_for_sequence(s, **d['params'])
+            err = None
+        except Exception as e:  # pylint: disable=broad-except
+            inst, err = None, e
+    return {'seq': s, 'n0': n0, 'inst': inst, 'err': err, 'cap': cap}
+
+
+class Fail(str):
+    """a failure text, optionally classified as an instance of a known finding"""
+    finding = None
+
+
+def known_f_c19_1(d, pitch):
+    """F-C19-1 exactly: some zero-length note sits on total_time and the offending melody note has its pitch"""
+    return any(n[1] == n[2] == d['total_time'] and n[0] == pitch and not n[5] for n in d['notes'])
+
+
+def oracle_melody(np, d, res):
+    from note_seq import constants
+    if res['err'] is not None:
+        return 'infer_melody_for_sequence raised %s: %s on a valid sequence' % (type(res['err']).__name__, res['err'])
+    s, n0, inst, cap = res['seq'], res['n0'], res['inst'], res['cap']
+    orig, added = list(s.notes)[:n0], list(s.notes)[n0:]
+    if any(n.instrument != inst for n in added) or any(n.instrument == inst for n in orig):
+        return 'the melody instrument is not a fresh instrument number'
+    if inst == 9:
+        return 'the melody was put on the drum channel'
+    real = [n for n in orig if not n.is_drum and n.program not in constants.UNPITCHED_PROGRAMS]
+    mel = sorted(added, key=lambda n: (n.start_time, n.end_time))
+    for a, b in zip(mel, mel[1:]):
+        if a.end_time > b.start_time:
+            return 'melody notes overlap: %r-%r and %r-%r' % (a.start_time, a.end_time, b.start_time, b.end_time)
+    for n in mel:
+        if not (0.0 <= n.start_time and n.start_time <= n.end_time and n.end_time <= s.total_time):
+            return 'melody note %r-%r outside the sequence [0, %r]' % (n.start_time, n.end_time, s.total_time)
+        if not any(o.pitch == n.pitch and o.start_time == n.start_time for o in real):
+            f = Fail('melody note (pitch %d at %r) does not start at the onset of a real note of that pitch' % (n.pitch, n.start_time))
+            if known_f_c19_1(d, n.pitch):
+                f.finding = 'F-C19-1'
+            return f
+    if cap.mel:
+        pitches, fl, tr, result = cap.mel[0]
+        if np.isnan(fl).any() or np.isnan(tr).any():
+            return None
+        if (fl == np.inf).any() or (tr == np.inf).any():
+            return None
+        path = mel_indices(None, result, pitches)
+        r = oracle_mel(np, path, fl, tr)
+        if r:
+            return r
+    elif real:
+        return 'no inference was run although the sequence has pitched notes'
+    elif added:
+        return 'notes were added to a sequence without pitched notes'
+    return None
+
+
+# ============================================================================= driver plumbing
+def run_groups(chk, groups):
+    """groups: list of lists of request lines (a group shares driver state); returns responses per group"""
+    if not groups:
+        return []
+    w = max(1, min(8, len(groups)))
+    buckets = [[] for _ in range(w)]
+    sizes = [0] * w
+    order = sorted(range(len(groups)), key=lambda g: -sum(len(x) for x in groups[g]))
+    for g in order:
+        b = sizes.index(min(sizes))
+        buckets[b].append(g)
+        sizes[b] += sum(len(x) for x in groups[g]) + 1
+    def work(b):
+        lines = [ln for g in buckets[b] for ln in groups[g]]
+        return chk.driver(EXE, lines) if lines else []
+    with ThreadPoolExecutor(max_workers=w) as ex:
+        outs = list(ex.map(work, range(w)))
+    res = [None] * len(groups)
+    for b in range(w):
+        pos = 0
+        for g in buckets[b]:
+            res[g] = outs[b][pos:pos + len(groups[g])]
+            pos += len(groups[g])
+    return res
+
+
+def parse_run(resp):
+    """'ok <n> s… <opt>' -> (path, opt token) | ('err', name)"""
+    t = resp.split()
+    if t[0] != 'ok':
+        return None, resp
+    n = int(t[1])
+    return [int(x) for x in t[2:2 + n]], t[2 + n]
+
+
+# ============================================================================= run
 def run(chk):
+    import numpy as np
+    from note_seq import chord_inference as ci, melody_inference as mi
+    try:
+        from absl import logging as alog
+        alog.set_verbosity(alog.ERROR)
+    except Exception:  # pylint: disable=broad-except
+        pass
     generate(chk)
+    chk.prove(MODULES, THEOREMS, [EXE], extra_trusted=[
+        'rne53 (Common/Float.lean; monotonicity proved in Proofs/Rounding.lean) as the model of numpy binary64 addition: '
+        'the optimality theorems are instantiated for `rne53 (a + b)` with -inf absorbing (Props/C19_float.lean) and that '
+        'instance is run bit-exactly against numpy on every small/medium table of this run; the 1164-state tables are run '
+        'over Lean native Float (same IEEE additions) — NaN, +inf, overflow and subnormal sums are outside the model',
+        'numpy: log, dot, norm, argmax (first maximum), tile; likelihood VALUES are inputs to the model',
+        'monkey-patched module tables _CHORDS/_KEY_CHORDS for the small key-chord instances (the real function body runs)'])
+    chk.rule = ('Viterbi helpers on integer tables with ties and -inf (melody: P=1..6 pitches, 1..12 frames; key-chord: '
+                '12*C states for C=1..6 and the real 1164 states), float tables captured from end-to-end runs; '
+                'infer_chords_for_sequence on generated sequences of 1..64 chord frames (five supported meters, explicit '
+                'chords_per_bar, beat annotations with/without absolute quantization, six parameter sets incl. 0/1 '
+                'probabilities); infer_melody_for_sequence on 0..100 notes (<= 200 note events) from a time pool with '
+                'coincident onsets/offsets. non-trivial = distinct instance on which the implementation returned a path')
+    C0 = len(ci._CHORDS)
+    import time as _time
+    t_mark = [_time.time()]
+
+    def lap(name):
+        chk.notes.setdefault('phase_seconds', {})[name] = round(_time.time() - t_mark[0], 1)
+        t_mark[0] = _time.time()
+    lap('prove')
+    groups, meta = [], []     # meta[g] = list of (stream, key, impl, kind, extra) aligned with groups[g]
+    nl_hex = hexf(-np.log(12))
+
+    def fail_once(what, replay):
+        fid = getattr(what, 'finding', None)
+        if sum(1 for f in chk.failures if f['finding'] == fid) < (5 if fid else 25):
+            chk.fail(str(what), replay, finding=fid)
+
+    # ------------------------------------------------------------------ corpus first
+    for name, obj in corpus_cases(PID):
+        r = replay_case(np, obj, {}, quiet=True)
+        chk.count('corpus', name, True, 'fails' if r else 'holds')
+        if r:
+            # classified by the shape of the input (see `known_f_c19_1`), never by the file's own label
+            chk.fail(str(r), obj, finding=getattr(r, 'finding', None))
+
+    # ------------------------------------------------------------------ (i) melody Viterbi, integer tables
+    rng = chk.subrng('vit-mel-int')
+    for i in range(chk.n(1500, 30000)):
+        P = rng.choice([1, 1, 2, 2, 3, 4, 6])
+        T = rng.choice([1, 2, 2, 3, 4, 5, 8, 12])
+        n = 2 * P + 1
+        span = rng.choice([1, 2, 4, 9])
+        pin = rng.choice([0.0, 0.1, 0.3, 0.6])
+        fl = np.array([[NINF if rng.random() < pin else float(rng.randint(-span, 0)) for _ in range(n)] for _ in range(T)])
+        tr = np.array([[NINF if rng.random() < pin else float(rng.randint(-span, 0)) for _ in range(n)] for _ in range(n)])
+        pitches = sorted(rng.sample(range(30, 100), P))
+        case = {'kind': 'viterbi-mel', 'P': P, 'frames': T, 'fl': [[ext(x) for x in r] for r in fl.tolist()],
+                'tr': [[ext(x) for x in r] for r in tr.tolist()]}
+        try:
+            path = impl_mel(mi, pitches, fl, tr)
+        except Exception as e:  # pylint: disable=broad-except
+            fail_once('_melody_viterbi raised %s: %s' % (type(e).__name__, e), case)
+            continue
+        o = oracle_mel(np, path, fl, tr)
+        if o:
+            fail_once(o, case)
+        sc = mel_score(path, fl, tr)
+        body = '%d %d %s %s' % (P, T, extarr(tr), extarr(fl))
+        bodyf = '%d %d %s %s' % (P, T, hexarr(tr), hexarr(fl))
+        groups.append(['melI ' + body, 'melF ' + bodyf, 'melQ ' + bodyf])
+        meta.append([('vit-mel-int', case, (path, sc), 'ext', ['P%d' % P, 'T%s' % ('1' if T == 1 else '2-5' if T <= 5 else '6+'),
+                                                              'allinf' if sc == NINF else 'finite']),
+                     ('vit-mel-int', case, (path, sc), 'hex', None),
+                     ('vit-mel-int', case, (path, sc), 'rat', None)])
+
+    lap('vit-mel-int')
+    # ------------------------------------------------------------------ (i) key-chord Viterbi, small patched state space
+    rng = chk.subrng('vit-kc-int')
+    for i in range(chk.n(400, 5000)):
+        C = rng.choice([1, 2, 2, 3, 3, 5, 6])
+        T = rng.choice([1, 2, 2, 3, 4, 6, 9])
+        n = 12 * C
+        span = rng.choice([1, 2, 5, 20])
+        pin = rng.choice([0.0, 0.0, 0.1, 0.4])
+        g = lambda: NINF if rng.random() < pin else float(rng.randint(-span, 0))
+        fl = np.array([[g() for _ in range(C)] for _ in range(T)])
+        kc = np.array([[g() for _ in range(C)] for _ in range(12)])
+        tr = np.array([[g() for _ in range(n)] for _ in range(n)])
+        case = {'kind': 'viterbi-kc', 'C': C, 'frames': T, 'fl': [[ext(x) for x in r] for r in fl.tolist()],
+                'kc': [[ext(x) for x in r] for r in kc.tolist()], 'tr': [[ext(x) for x in r] for r in tr.tolist()]}
+        try:
+            path = impl_kc(ci, fl, kc, tr, C)
+        except Exception as e:  # pylint: disable=broad-except
+            fail_once('_key_chord_viterbi raised %s: %s' % (type(e).__name__, e), case)
+            continue
+        o = oracle_kc(np, path, fl, kc, tr, C)
+        if o:
+            fail_once(o, case)
+        sc = kc_score(np, path, fl, kc, tr, C)
+        req = '%d %d %s %s %s inline %s' % (C, T, nl_hex, hexarr(kc), hexarr(fl), hexarr(tr))
+        rq = n * n * T <= 12000      # the rne53-on-rationals instance is ~4 us per addition
+        groups.append(['kcF ' + req] + (['kcQ ' + req] if rq else []))
+        meta.append([('vit-kc-int', case, (path, sc), 'hex', ['C%d' % C, 'T%s' % ('1' if T == 1 else '2-4' if T <= 4 else '5+'),
+                                                             'allinf' if sc == NINF else 'finite', 'rne53' if rq else 'native-only'])]
+                    + ([('vit-kc-int', case, (path, sc), 'rat', None)] if rq else []))
+
+    # degenerate shapes: zero frames (IndexError: row 0 is written first) / zero states (ValueError from argmax)
+    for (T, C) in [(0, 2), (1, 0), (3, 0), (0, 0)]:
+        fl, kc, tr = np.zeros((T, C)), np.zeros((12, C)), np.zeros((12 * C, 12 * C))
+        try:
+            r = 'ok ' + ' '.join(map(str, impl_kc(ci, fl, kc, tr, C)))
+        except Exception as e:  # pylint: disable=broad-except
+            r = 'err ' + type(e).__name__
+        groups.append([' '.join(('kcF %d %d %s %s %s inline %s' % (C, T, nl_hex, hexarr(kc), hexarr(fl), hexarr(tr))).split())])
+        meta.append([('vit-degenerate', ('kc', T, C), r, 'plain', r)])
+    for (T, P) in [(0, 1), (0, 0), (1, 0), (2, 0)]:
+        n = 2 * P + 1
+        fl, tr = np.zeros((T, n)), np.zeros((n, n))
+        try:
+            r = 'ok %d ' % T + ' '.join(map(str, impl_mel(mi, list(range(P)), fl, tr))) + ' ' + hexf(0.0)
+        except Exception as e:  # pylint: disable=broad-except
+            r = 'err ' + type(e).__name__
+        groups.append([' '.join(('melF %d %d %s %s' % (P, T, hexarr(tr), hexarr(fl))).split())])
+        meta.append([('vit-degenerate', ('mel', T, P), r, 'plain', r)])
+    lap('vit-kc-int')
+    # ------------------------------------------------------------------ (i) key-chord Viterbi, real dimensions, seeded table
+    rng = chk.subrng('vit-kc-real')
+    for i in range(chk.n(6, 60)):
+        T = rng.choice([1, 2, 3, 4, 6])
+        n = 12 * C0
+        seed, lo, hi, pinf = rng.randrange(1, 2 ** 40), -rng.choice([1, 2, 5, 50]), 0, rng.choice([0, 0, 10, 40])
+        tr = splitmix_table(seed, n * n, lo, hi, pinf).reshape(n, n)
+        g = lambda: NINF if rng.random() < 0.05 else float(rng.randint(-3, 0))
+        fl = np.array([[g() for _ in range(C0)] for _ in range(T)])
+        kc = np.array([[g() for _ in range(C0)] for _ in range(12)])
+        case = {'kind': 'viterbi-kc', 'C': C0, 'frames': T, 'fl': [[ext(x) for x in r] for r in fl.tolist()],
+                'kc': [[ext(x) for x in r] for r in kc.tolist()], 'tr_lcg': [seed, lo, hi, pinf]}
+        try:
+            path = impl_kc(ci, fl, kc, tr, C0)
+        except Exception as e:  # pylint: disable=broad-except
+            fail_once('_key_chord_viterbi raised %s: %s' % (type(e).__name__, e), case)
+            continue
+        o = oracle_kc(np, path, fl, kc, tr, C0)
+        if o:
+            fail_once(o, case)
+        sc = kc_score(np, path, fl, kc, tr, C0)
+        groups.append(['kcF %d %d %s %s %s lcg %d %d %d %d' % (C0, T, nl_hex, hexarr(kc), hexarr(fl), seed, lo, hi, pinf)])
+        meta.append([('vit-kc-real', case, (path, sc), 'hex', ['T%d' % T, 'pinf%d' % pinf])])
+
+    lap('vit-kc-real')
+    # ------------------------------------------------------------------ (ii)+(iii) chords end to end
+    rng = chk.subrng('chords-e2e')
+    cache = {}
+    nparams = chk.n(3, len(PARAM_SETS))
+    set_lines = {}
+    by_tr = {}      # parameter set -> current group index
+    tr_groups = []  # [(tr array, [lines], [meta])]
+    max_rel = 0.0
+    for i in range(chk.n(60, 1200)):
+        d, hist = gen_chord_case(rng, nparams)
+        res = run_chords(d, cache)
+        o = oracle_chords(np, d, res)
+        chk.count('oracle-chords', None)
+        if o:
+            fail_once(o, d)
+        if res['err'] is not None or len(res['cap'].kc) != 1:
+            chk.count('chords-e2e', None, False, hist + ['impl-error'])
+            continue
+        if i % 3 == 0 and d['notes'] and all(12 <= n[0] <= 110 for n in d['notes']):
+            k = rng.randrange(1, 12)
+            o, rel = oracle_transpose(np, d, res, cache, k)
+            chk.count('oracle-transpose', None, False, 'exact' if rel == 0.0 else 'ulps' if rel is not None else 'n/a')
+            if rel:
+                max_rel = max(max_rel, rel)
+            if o:
+                fail_once(o, dict(d, transpose=k))
+        fl, kc, tr, result = res['cap'].kc[0]
+        if np.isnan(fl).any() or np.isnan(tr).any() or np.isnan(kc).any():
+            chk.count('chords-e2e', None, False, hist + ['nan-tables-skipped'])
+            continue
+        path = kc_indices(ci, result, C0)
+        sc = kc_score(np, path, fl, kc, tr, C0)
+        key = d['params']
+        if key not in by_tr or tr_groups[by_tr[key]][3][0] > 60:
+            # one driver process per ~60 frames of work; the 1164 x 1164 table is sent once per process
+            if key not in set_lines:
+                set_lines[key] = 'setF %d %s' % (12 * C0, hexarr(tr))
+            by_tr[key] = len(tr_groups)
+            tr_groups.append((tr, [set_lines[key]], [('setF', None, None, 'set', None)], [0]))
+        ref_tr, lines, mt, work = tr_groups[by_tr[key]]
+        if ref_tr.shape != tr.shape or not (ref_tr == tr).all():
+            raise RuntimeError('transition table differs between two runs with the same parameters')
+        work[0] += fl.shape[0]
+        lines.append('kcF %d %d %s %s %s cur' % (C0, fl.shape[0], nl_hex, hexarr(kc), hexarr(fl)))
+        mt.append(('vit-kc-float', d, (path, sc), 'hex', ['T%s' % ('1' if len(path) == 1 else '2-8' if len(path) <= 8 else '9+'),
+                                                          'params:%d' % d['params']]))
+        # the writer, on the implementation's path
+        s = res['seq']
+        tm = chord_timing(d, s, res['cap'])
+        if tm[0] == 'pc':
+            tmw = 'pc %s %d' % (rat(tm[1]), tm[2])
+        else:
+            tmw = 'bt %d %s %s' % (len(tm[1]), ' '.join(rat(t) for t in tm[1]),
+                                   '0' if tm[2] is None else '1 %d %s' % (len(tm[2]), ' '.join(map(str, tm[2]))))
+            tmw = ' '.join(tmw.split())
+        anns = [a for a in s.text_annotations if a.annotation_type == CHORD_SYMBOL]
+        quant = bool(d.get('spq') or d.get('abs_sps'))
+        impl_w = 'ok %d' % len(anns) + ''.join(' %s %s %s' % (rat(a.time), str(a.quantized_step) if quant else '-', hx(a.text)) for a in anns)
+        if d['add_key_signatures']:
+            impl_w += ' %d' % len(s.key_signatures) + ''.join(' %s %d' % (rat(k.time), k.key) for k in s.key_signatures)
+        else:
+            impl_w += ' 0'
+        lines.append('cw %d %d %s %d %s' % (C0, 1 if d['add_key_signatures'] else 0, tmw, len(path), ' '.join(map(str, path))))
+        mt.append(('chords-e2e', d, impl_w, 'cw', hist + ['anns:%s' % ('1' if len(anns) == 1 else '2-5' if len(anns) <= 5 else '6+'),
+                                                          'NC' if any(a.text == 'N.C.' for a in anns) else 'noNC',
+                                                          'keychange' if len({i // C0 for i in path}) > 1 else 'onekey']))
+    for tr, lines, mt, _ in tr_groups:
+        groups.append(lines)
+        meta.append(mt)
+    chk.notes['transpose_max_relative_difference'] = max_rel
+
+    # documented rejections of infer_chords_for_sequence (oracle only; the writer model does not cover them)
+    malformed_chords(chk, cache, fail_once)
+
+    lap('chords-e2e')
+    # ------------------------------------------------------------------ (ii)+(iii) melody end to end + note frames
+    rng = chk.subrng('melody-e2e')
+    rng_z = chk.subrng('melody-zero-length-at-end')
+    n_main = chk.n(400, 12000)
+    for i in range(n_main + chk.n(20, 300)):
+        if i < n_main:
+            d, hist = gen_melody_case(rng)
+        else:
+            # separate small stream: a zero-length note exactly on total_time (known finding F-C19-1 when it
+            # misleads the melody; the model follows the code, so the correspondence still has to agree)
+            d, hist = gen_melody_case(rng_z)
+            if not d['notes']:
+                d['notes'].append([60, 0.0, 1.0, 0, 0, False])
+                d['total_time'] = max(d['total_time'], 1.0)
+            d['notes'].append([rng_z.choice([n[0] for n in d['notes']] + [100, 101]), d['total_time'], d['total_time'], 0, 0, False])
+            hist = ['zero-length-at-total_time']
+        res = run_melody(d)
+        chk.count('oracle-melody', None)
+        o = oracle_melody(np, d, res)
+        if o:
+            fail_once(o, d)
+        if res['err'] is not None:
+            chk.count('melody-e2e', None, False, hist + ['impl-error'])
+            continue
+        s, n0 = res['seq'], res['n0']
+        lines, mt = [], []
+        # sequence_note_frames
+        s0 = build_seq(d)
+        with warnings.catch_warnings():
+            warnings.simplefilter('ignore')
+            pitches, has_on, has_nt, ev = mi.sequence_note_frames(s0)
+        on = sorted((int(f), int(p)) for f, p in zip(*np.nonzero(has_on)))
+        pr = sorted((int(f), int(p)) for f, p in zip(*np.nonzero(has_nt)))
+        impl_nf = 'ok %d %s %d %s %d %s %d %s' % (len(pitches), ' '.join(map(str, pitches)), len(ev), ' '.join(rat(t) for t in ev),
+                                                  len(on), ' '.join('%d %d' % x for x in on), len(pr), ' '.join('%d %d' % x for x in pr))
+        lines.append('nf %s %d %s' % (rat(s0.total_time), len(s0.notes),
+                                      ' '.join('%d %s %s %d %d' % (n.pitch, rat(n.start_time), rat(n.end_time), 1 if n.is_drum else 0, n.program)
+                                               for n in s0.notes)))
+        mt.append(('note-frames', d, ' '.join(impl_nf.split()), 'nf', ['frames:%s' % ('1' if not ev else '2-10' if len(ev) < 10 else '11+')]))
+        insts = [n.instrument for n in s0.notes]
+        lines.append('mi %d %s' % (len(insts), ' '.join(map(str, insts))))
+        mt.append(('melody-e2e', d, 'ok %d' % res['inst'], 'mi', None))
+        added = list(s.notes)[n0:]
+        if res['cap'].mel:
+            pit, fl, tr, result = res['cap'].mel[0]
+            if not (np.isnan(fl).any() or np.isnan(tr).any()):
+                path = mel_indices(None, result, pit)
+                sc = mel_score(path, fl, tr)
+                lines.append('melF %d %d %s %s' % (len(pit), fl.shape[0], hexarr(tr), hexarr(fl)))
+                rq = fl.shape[0] * fl.shape[1] ** 2 <= 30000 and not (fl == np.inf).any()
+                mt.append(('vit-mel-float', d, (path, sc), 'hex', ['P%s' % ('1' if len(pit) == 1 else '2-4' if len(pit) <= 4 else '5+'),
+                                                                   'allinf' if sc == NINF else 'finite', 'rne53' if rq else 'native-only']))
+                if rq:
+                    lines.append('melQ %d %d %s %s' % (len(pit), fl.shape[0], hexarr(tr), hexarr(fl)))
+                    mt.append(('vit-mel-float', d, (path, sc), 'rat', None))
+                times = [0.0] + list(ev)
+                lines.append('mw %s %d %s %d %s %d %s' % (rat(s.total_time), len(pit), ' '.join(map(str, pit)), len(path),
+                                                          ' '.join(map(str, path)), len(times), ' '.join(rat(t) for t in times)))
+                impl_w = 'ok %d' % len(added) + ''.join(' %s %s %d' % (rat(n.start_time), rat(n.end_time), n.pitch) for n in added)
+                mt.append(('melody-e2e', d, impl_w, 'mw', hist + ['added:%s' % ('0' if not added else '1-3' if len(added) <= 3 else '4+'),
+                                                                  'rest-in-path' if 0 in path[1:] else 'no-rest',
+                                                                  'sustain' if any(x > len(pit) for x in path) else 'no-sustain']))
+                if any(n.velocity != mi.MELODY_VELOCITY for n in added):
+                    chk.disagree('melody-e2e', d, 'velocity %s' % [n.velocity for n in added], 'velocity %d' % mi.MELODY_VELOCITY)
+            else:
+                chk.count('melody-e2e', None, False, hist + ['nan-tables-skipped'])
+        else:
+            if added:
+                chk.disagree('melody-e2e', d, 'notes added without inference', 'no notes')
+            chk.count('melody-e2e', ('none', i), False, hist + ['no-pitched-notes'])
+        groups.append(lines)
+        meta.append(mt)
+
+    lap('melody-e2e')
+    # ------------------------------------------------------------------ chord tables (what the rotation theorem talks about)
+    lines, mt = [], []
+    p = 0.25
+    dist = ci._key_chord_distribution(chord_pitch_out_of_key_prob=p)
+    vecs = ci._chord_pitch_vectors()
+    for key in range(12):
+        for c in range(C0):
+            ratio = dist[key, c] / dist[key, 0]
+            cand = [(a, b) for a in range(5) for b in range(5) if abs((1 - p) ** a * p ** b - ratio) < 1e-9]
+            lines.append('cnt %d %d' % (key, c))
+            mt.append(('chord-tables', ('cnt', key, c), 'ok %d %d' % cand[0] if len(cand) == 1 else 'ambiguous %r' % cand, 'plain', 'cnt'))
+    for c in range(C0):
+        lines.append('vec %d' % c)
+        mt.append(('chord-tables', ('vec', c), 'ok ' + ' '.join('1' if x > 0 else '0' for x in vecs[c]), 'plain', 'vec'))
+    kinds = list(ci._CHORD_KINDS)
+    for k in range(12):
+        for c in range(C0):
+            if c == 0:
+                want = 0
+            else:
+                root, kind = ci._CHORDS[c]
+                want = ci._CHORDS.index(((root + k) % 12, kind))
+            lines.append('rot %d %d' % (k, c))
+            mt.append(('chord-tables', ('rot', k, c), 'ok %d' % want, 'plain', 'rot'))
+    groups.append(lines)
+    meta.append(mt)
+    monitor_rotation(chk, np, ci, fail_once)
+
+    # ------------------------------------------------------------------ run the model, diff
+    lap('chord-tables')
+    outs = run_groups(chk, groups)
+    lap('lean-driver')
+    shown = set()
+    for mt, out in zip(meta, outs):
+        for (stream, case, impl, kind, hist), resp in zip(mt, out):
+            if kind == 'set':
+                if resp != 'ok':
+                    raise RuntimeError('driver rejected a transition table: %s' % resp[:100])
+                continue
+            if kind in ('ext', 'hex', 'rat'):
+                path, sc = impl
+                mpath, mopt = parse_run(resp)
+                if mpath is None:
+                    chk.count(stream, None, False, hist)
+                    chk.disagree(stream, case, 'path %s' % path, resp[:200])
+                    continue
+                if kind == 'ext':
+                    mval = NINF if mopt == '-inf' else float(int(mopt))
+                elif kind == 'rat':
+                    mval = NINF if mopt == '-inf' else unrat(mopt)
+                    if mval != NINF:
+                        mval = float(mval) if float(mval) == mval else mval    # exact: a rational that is not this double stays unequal
+                else:
+                    mval = unhexf(mopt)
+                if hist is not None:
+                    chk.count(stream, digest(case), True, hist)
+                if mpath != path:
+                    chk.disagree(stream, case, 'path %s' % path, 'path %s' % mpath)
+                elif not feq(mval, sc):
+                    chk.disagree(stream, case, 'score of path %r' % sc, 'optimum %r' % mval)
+                if stream not in shown and len(path) > 1:
+                    shown.add(stream)
+                    chk.sample({'stream': stream, 'impl_path': path[:12], 'model_path': mpath[:12], 'impl_score': sc, 'model_optimum': mval})
+            else:
+                if hist is not None:
+                    chk.count(stream, digest(case) if kind != 'plain' else case, resp.startswith('ok'), hist)
+                if ' '.join(impl.split()) != ' '.join(strip_frames(resp, kind).split()):
+                    chk.disagree(stream, case, impl[:600], resp[:600])
+                if (stream, kind) not in shown and kind in ('cw', 'mw') and len(impl) > 12:
+                    shown.add((stream, kind))
+                    chk.sample({'stream': stream, 'impl': impl[:300], 'model': strip_frames(resp, kind)[:300]})
+
+
+def strip_frames(resp, kind):
+    """the chord writer model also reports the frame index of every annotation; the implementation's
+    annotations carry only time / step / text, so drop the index before comparing"""
+    if kind != 'cw' or not resp.startswith('ok'):
+        return resp
+    t = resp.split()
+    n = int(t[1])
+    out = ['ok', t[1]]
+    p = 2
+    for _ in range(n):
+        out += t[p + 1:p + 4]
+        p += 4
+    m = int(t[p])
+    out.append(t[p])
+    p += 1
+    for _ in range(m):
+        out += t[p + 1:p + 3]
+        p += 3
+    return ' '.join(out)
+
+
+def monitor_rotation(chk, np, ci, fail_once):
+    """hypotheses of `keychord_transpose_invariant`, monitored on the implementation's own tables:
+    prior and transition tables of the default parameters are invariant under moving key and chord
+    root up k semitones, up to rounding (row sums are taken in a rotated order)."""
+    C = len(ci._CHORDS)
+    nk = len(list(ci._CHORD_KINDS))
+    dist = ci._key_chord_distribution(chord_pitch_out_of_key_prob=0.01)
+    trd = ci._key_chord_transition_distribution(dist, key_change_prob=0.001, chord_change_prob=0.5)
+    worst = 0.0
+    for k in range(1, 12):
+        rot = np.array([0] + [1 + (((c - 1) // nk + k) % 12) * nk + (c - 1) % nk for c in range(1, C)])
+        sig = np.array([((i // C + k) % 12) * C + rot[i % C] for i in range(12 * C)])
+        a = dist[np.ix_((np.arange(12) + k) % 12, rot)]
+        worst = max(worst, float(np.max(np.abs(a - dist) / dist)))
+        b = trd[np.ix_(sig, sig)]
+        worst = max(worst, float(np.max(np.abs(b - trd) / trd)))
+        chk.count('rotation-monitor', ('k', k), True, 'k')
+    chk.notes['rotation_tables_max_relative_difference'] = worst
+    if worst > 1e-12:
+        fail_once('key-chord prior / transition tables are not invariant under transposition (relative difference %g)' % worst,
+                  {'kind': 'rotation-tables'})
+
+
+def malformed_chords(chk, cache, fail_once):
+    """inputs outside the quantifier must be refused with the documented exception"""
+    from note_seq import chord_inference as ci, sequences_lib as sl
+    base = {'kind': 'chords', 'notes': [[60, 0.0, 2.0, 0, 0, False], [64, 0.0, 2.0, 0, 0, False]], 'total_time': 2.0,
+            'qpm': 120.0, 'ts': [4, 4], 'spq': 4, 'chords_per_bar': None, 'annotations': [], 'key_signatures': [],
+            'add_key_signatures': False, 'params': 0}
+    cases = [
+        ('already-has-chords', dict(base, annotations=[[0.0, 'C', CHORD_SYMBOL]]), ci.SequenceAlreadyHasChordsError),
+        ('uncommon-time-signature', dict(base, ts=[5, 4]), ci.UncommonTimeSignatureError),
+        ('non-integer-steps-per-chord', dict(base, chords_per_bar=3), ci.NonIntegerStepsPerChordError),
+        ('empty', dict(base, notes=[], total_time=0.0), ci.EmptySequenceError),
+        ('too-long', dict(base, notes=[[60, 0.0, 1.0, 0, 0, False]], total_time=1001.0), ci.SequenceTooLongError),
+        ('unquantized-no-beats', dict(base, spq=None), sl.QuantizationStatusError),
+        ('unquantized-chords-per-bar', dict(base, spq=None, chords_per_bar=2, annotations=[[1.0, '', BEAT]]), sl.QuantizationStatusError),
+    ]
+    for name, d, exc in cases:
+        res = run_chords(d, cache)
+        ok = isinstance(res['err'], exc)
+        chk.count('chords-rejections', name, True, name + (':ok' if ok else ':WRONG'))
+        if not ok:
+            fail_once('%s: expected %s, got %s' % (name, exc.__name__, type(res['err']).__name__ if res['err'] else 'a result'),
+                      dict(d, expect=exc.__name__))
+
+
+# ============================================================================= replay
+def tab(rows):
+    import numpy as np
+    return np.array([[NINF if x == '-inf' else float(x) for x in r] for r in rows], dtype=np.float64)
+
+
+def replay_case(np, obj, cache, quiet=False):
+    """re-run one replay input against the real code with the oracle; returns the failure text or None"""
+    from note_seq import chord_inference as ci, melody_inference as mi
+    kind = obj.get('kind')
+    say = (lambda *a: None) if quiet else print
+    if kind == 'viterbi-mel':
+        fl, tr = tab(obj['fl']), tab(obj['tr'])
+        pitches = list(range(40, 40 + obj['P']))
+        try:
+            path = impl_mel(mi, pitches, fl, tr)
+        except Exception as e:  # pylint: disable=broad-except
+            return '_melody_viterbi raised %s: %s' % (type(e).__name__, e)
+        say('path', path, 'score', mel_score(path, fl, tr))
+        return oracle_mel(np, path, fl, tr)
+    if kind == 'viterbi-kc':
+        C = obj['C']
+        fl, kc = tab(obj['fl']), tab(obj['kc'])
+        if 'tr_lcg' in obj:
+            seed, lo, hi, pinf = obj['tr_lcg']
+            tr = splitmix_table(seed, (12 * C) ** 2, lo, hi, pinf).reshape(12 * C, 12 * C)
+        else:
+            tr = tab(obj['tr'])
+        try:
+            path = impl_kc(ci, fl, kc, tr, C)
+        except Exception as e:  # pylint: disable=broad-except
+            return '_key_chord_viterbi raised %s: %s' % (type(e).__name__, e)
+        say('path', path, 'score', kc_score(np, path, fl, kc, tr, C))
+        return oracle_kc(np, path, fl, kc, tr, C)
+    if kind == 'chords':
+        if obj.get('expect'):
+            res = run_chords(obj, cache)
+            got = type(res['err']).__name__ if res['err'] else 'a result'
+            say('expected', obj['expect'], 'got', got)
+            return None if got == obj['expect'] else 'expected %s, got %s' % (obj['expect'], got)
+        res = run_chords(obj, cache)
+        if res['err'] is None:
+            say('annotations', [(a.time, a.text) for a in res['seq'].text_annotations if a.annotation_type == CHORD_SYMBOL][:20])
+        r = oracle_chords(np, obj, res)
+        if r is None and obj.get('transpose'):
+            r, rel = oracle_transpose(np, obj, res, cache, obj['transpose'])
+            say('transposed by', obj['transpose'], 'relative likelihood difference', rel)
+        return r
+    if kind == 'melody':
+        res = run_melody(obj)
+        if res['err'] is None:
+            say('melody', [(n.pitch, n.start_time, n.end_time) for n in list(res['seq'].notes)[res['n0']:]][:20])
+        return oracle_melody(np, obj, res)
+    if kind == 'rotation-tables':
+        class _C:
+            notes = {}
+
+            def count(self, *a, **k):
+                pass
+        out = []
+        monitor_rotation(_C(), np, ci, lambda what, rep: out.append(what))
+        return out[0] if out else None
+    return 'unknown replay kind %r' % kind
 
 
 def replay(chk, obj):
-    return 0
+    import numpy as np
+    print('replay C19:', obj.get('kind'))
+    r = replay_case(np, obj, {})
+    print('PROPERTY FAILS: %s' % r if r else 'property holds on this input')
+    return 1 if r else 0
